@@ -343,11 +343,11 @@ func (vc *VC) execRange(st *State, x *ast.RangeStmt, label string) []*State {
 			}
 		}
 	}
-	var pre func(s *State) string              // loop guard in state s
-	var bind func(s *State)                    // binds key/value at iteration start
-	var post func(s *State)                    // advance
-	var initGhost func(s *State)               // set ghost at entry
-	var havocGhost func(head *State)           // havoc ghost at head with automatic invariants
+	var pre func(s *State) string    // loop guard in state s
+	var bind func(s *State)          // binds key/value at iteration start
+	var post func(s *State)          // advance
+	var initGhost func(s *State)     // set ghost at entry
+	var havocGhost func(head *State) // havoc ghost at head with automatic invariants
 	switch tt := rt.(type) {
 	case *types.Slice, *types.Array:
 		ln := vc.lenOf(st, rng)
